@@ -72,6 +72,8 @@ Definition deadline_of (e : key * container) : Z := c_deadline (snd e).
    fl b : free_list_[b], head first.                                                             *)
 Definition alignment_bits : N := 4.
 Definition alignment : N := 16.
+Definition page_in_use : N := 256.  (* 0x100: the model keeps the flag as the bool of a header *)
+Definition page_header_size : N := 24. (* sizeof(page): int bits; page *next; page *prev - must be <= 2*alignment *)
 Definition self_size : N := 544.   (* sizeof(buddy_allocator) on LP64: 64 pointers + size_t + int(+pad) + 2 size_t *)
 
 Record bstate := mkB {
